@@ -8433,8 +8433,14 @@ class Outer_Shared_Do_Construct(BlockBase):  # R839
     def match(reader):
         content = []
         for cls in [Label_Do_Stmt, Do_Body, Shared_Term_Do_Construct]:
-            obj = cls(reader)
-            if obj is None:  # todo: restore reader
+            try:
+                obj = cls(reader)
+            except NoMatchError:
+                obj = None
+            if obj is None:
+                # No match: give back everything read so far.
+                for item in reversed(content):
+                    item.restore_reader(reader)
                 return
             content.append(obj)
         return (content,)
@@ -8469,8 +8475,14 @@ class Inner_Shared_Do_Construct(BlockBase):  # R841
     def match(reader):
         content = []
         for cls in [Label_Do_Stmt, Do_Body, Do_Term_Shared_Stmt]:
-            obj = cls(reader)
-            if obj is None:  # todo: restore reader
+            try:
+                obj = cls(reader)
+            except NoMatchError:
+                obj = None
+            if obj is None:
+                # No match: give back everything read so far.
+                for item in reversed(content):
+                    item.restore_reader(reader)
                 return
             content.append(obj)
         return (content,)
